@@ -429,7 +429,7 @@ OUT_POOL = [
     ("'x' | append: 'a' 'b'", BAD, None),
     ("a['b']c", SO, ["ok", "", 0]),
     ("a[1]c", SO, ["ok", "", 0]),
-    ("a. | default: 'd'", SO, ["ok", "d", 1]),
+    ("zz. | default: 'd'", SO, ["ok", "d", 1]),
     ("'x' | append: 'a',, 'b'", SO, ["err", "FilterArgumentError"]),
 ]
 ASSIGN_POOL = [
